@@ -7,7 +7,7 @@
 EXTENDS JetProg
 CONSTANTS Depth, Kinds
 
-Focals == {"ok", "fail", "failvar", "panic", "inclbroken"}
+Focals == {"ok", "fail", "failvar", "panic", "rterror", "inclbroken"}
 \* trycatch: the failure is handled by a catch list; trycatchfail: the catch list fails too (the error escapes, what
 \* the try body had rendered is gone for good)
 TryKinds == {"none", "try", "trycatch", "trycatchfail"}
@@ -21,6 +21,7 @@ Focal(f) ==
     \* a template that exists but does not parse: the same error every time, not a cached half-built template
     [] f = "inclbroken" -> <<T("f0"), Incl("ff", BrokenName), T("f1")>>
     [] f = "panic"   -> <<T("f0"), P("ff", Ex("err", "panic")), T("f1")>>
+    [] f = "rterror" -> <<T("f0"), P("ff", Ex("err", "rterror")), T("f1")>>
 
 MkC(par) ==
   LET path == par[1]  f == par[2]  tk == par[3]  pk == par[4]  toplet == par[5]
